@@ -8,6 +8,9 @@ import KcacheModel.Pipe
 import KcacheModel.Proofs.Pipe
 import KcacheModel.Sys
 import KcacheModel.Proofs.Cache
+import KcacheModel.Ctrl
+import KcacheModel.Proofs.Ctrl
+import KcacheModel.Proofs.CtrlWitness
 namespace KC.C05
 open KC
 
@@ -51,6 +54,47 @@ theorem root_exact (cap : Nat) (ls : List (PLabel α)) (s : Pipe α) (h : (Pipe.
   (pinv_run _ ls s (pinv_init cap) h).root_exact hd
 
 end
+
+/-! ### the single publisher: the controller publishes in the order in which it changes its cache -/
+section
+variable {K O : Type} [DecidableEq K]
+variable (key : O → K) (ver : O → Option Int) (acc : O → Bool)
+
+/-- **the controller's stream is its cache's history**: in every reachable state of the controller (any server
+history, slow or stale lists, watch reconnects, lost watch events, any interleaving), the events published so far,
+replayed *in publication order* on the content the cache had when Ready() was closed, give exactly the cache's
+present content — each batch (a relist's differences, a watch event's outcome) is appended whole, after the
+batches of everything applied before it. A subscriber that receives this stream in order therefore mirrors the
+cache (controller.go distributes a batch before it touches the cache again). -/
+theorem controller_stream_is_cache_history {w : CW K O} (h : CReach key ver acc w) (hr : w.ready = true) :
+    replay key ver w.published (abs w.base) = some (abs w.items) :=
+  published_replays key ver acc h hr
+
+/-- order matters: two updates of one key published in version order are not a well-formed stream when
+delivered the other way round (so an overtaken batch is visible to every subscriber that replays its events) -/
+theorem swapped_updates_ill_formed (pre post : List (Ev O)) (o1 o2 : O) (v1 v2 : Int) (a : AMap K O)
+    (hk : key o1 = key o2) (h1 : ver o1 = some v1) (h2 : ver o2 = some v2) (hlt : v1 < v2) :
+    replay key ver (pre ++ ⟨.update, o2⟩ :: ⟨.update, o1⟩ :: post) a = none := by
+  rw [replay_append]
+  cases replay key ver pre a with
+  | none => rfl
+  | some a1 =>
+    simp only [Option.bind_some, replay, applyEv, h2]
+    cases hc : a1 (key o2) with
+    | none => rfl
+    | some c =>
+      simp only
+      by_cases hcv : c.ver < v2
+      · simp only [hcv, if_true, h1, hk, AMap.set]
+        have hn : ¬ v2 < v1 := by omega
+        simp only [hn, if_false]
+      · simp [hcv]
+
+end
+
+/-! non-vacuity: the witness run of Proofs/CtrlWitness.lean is reachable and ready -/
+example : CReach CtrlWitness.kk CtrlWitness.vv CtrlWitness.aa CtrlWitness.w6 ∧ CtrlWitness.w6.ready = true :=
+  ⟨CtrlWitness.w6_reach, rfl⟩
 
 /-! ### the cache is never older than what a subscriber has received -/
 section
@@ -153,3 +197,5 @@ end KC.C05
 #print axioms KC.C05.replay_version_grows
 #print axioms KC.C05.cache_not_older
 #print axioms KC.C05.code_capacity_positive
+#print axioms KC.C05.controller_stream_is_cache_history
+#print axioms KC.C05.swapped_updates_ill_formed
